@@ -1546,6 +1546,89 @@ func TestVerifC41(t *testing.T) {
 		}
 		w.close()
 	}
+
+	// phase 3: a one-time token presented by several fresh connections at the same moment, while the attempt
+	// limiter makes the attempts queue (the production limiter admits 4 attempts per second; here one per 3 ms so
+	// that a round takes milliseconds - the order of events, not the delay, is what is being explored).
+	// However the attempts interleave, at most one of them may be accepted, and only that connection may read.
+	authLimiter = rate.NewLimiter(rate.Every(3*time.Millisecond), 1)
+	defer func() { authLimiter = rate.NewLimiter(rate.Inf, 1) }()
+	nrace := vk.N(60, 1500)
+	for i := 0; i < nrace; i++ {
+		rep.Case("token race %d", i)
+		if a.w.dead {
+			a.connect(env, m, rep)
+		}
+		rd := a.must(vfC41NewReq(byte(commands.Token)), nil)
+		if rd == nil {
+			rep.Count("token_race_rounds_given_up", 1)
+			continue
+		}
+		tok := rd.str()
+		m.tokens[tok] = &vfC41Tok{byAuth: true, used: true}
+		k := 2 + i%3
+		var ws []*vfC41Wire
+		for len(ws) < k+1 {
+			w, err := vfC41Dial(env.local, env.scfg)
+			if err != nil {
+				break
+			}
+			ws = append(ws, w)
+		}
+		if len(ws) < k+1 {
+			for _, w := range ws {
+				w.close()
+			}
+			rep.Count("token_race_rounds_given_up", 1)
+			continue
+		}
+		start := make(chan struct{})
+		accepted := make([]bool, k)
+		var wg sync.WaitGroup
+		wg.Add(k + 1)
+		go func() { // decoy: a failing attempt that occupies the limiter
+			defer wg.Done()
+			<-start
+			vfC41Call(ws[k], 1, vfC41NewReq(byte(commands.Auth)).str("nobody\x00not-a-hash"), nil)
+		}()
+		for j := 0; j < k; j++ {
+			go func() {
+				defer wg.Done()
+				<-start
+				rd, ok, alive := vfC41Call(ws[j], 1, vfC41NewReq(byte(commands.Auth)).str(tok), nil)
+				accepted[j] = ok && alive && rd.byte_() == 1
+			}()
+		}
+		close(start)
+		wg.Wait()
+		nAccepted, nReaders := 0, 0
+		for j := 0; j < k; j++ {
+			if accepted[j] {
+				nAccepted++
+			}
+			if _, ok, alive := vfC41Call(ws[j], 1, vfC41NewReq(byte(commands.Transaction)).bool_(0), nil); ok && alive {
+				nReaders++
+				if !accepted[j] {
+					rep.Violate("C41/connection-can-read-after-its-token-was-refused", fmt.Sprintf("race %d", i), map[string]any{"contenders": k})
+				}
+			}
+		}
+		for _, w := range ws {
+			w.close()
+		}
+		rep.Count("token_race_rounds", 1)
+		rep.Count("token_race_attempts", k)
+		rep.Eval(vk.Hash64("token-race", vk.Shard(), i), true)
+		switch {
+		case nAccepted > 1 || nReaders > 1:
+			rep.Violate("C41/one-time-token-accepted-more-than-once", fmt.Sprintf("race %d", i),
+				map[string]any{"what": "the same token was presented by several fresh connections at the same time", "contenders": k, "accepted": nAccepted, "connections_that_can_read": nReaders})
+		case nAccepted == 1:
+			rep.Count("token_race_rounds_with_one_winner", 1)
+		default:
+			rep.Count("token_race_rounds_nobody_accepted", 1)
+		}
+	}
 }
 
 func vfC41Digits(s string) string {
